@@ -103,6 +103,9 @@ type Store struct {
 	// for which it returns true; the answer is the same in dry-run mode.
 	Reject func(group, kind, ns, name string) bool
 
+	// RejectObject is Reject with access to the object being written.
+	RejectObject func(obj client.Object) bool
+
 	indexers []indexer
 }
 
@@ -459,6 +462,10 @@ func (s *Store) rejected(group, kind, ns, name string) bool {
 	return s.Reject != nil && s.Reject(group, kind, ns, name)
 }
 
+func (s *Store) rejectedObj(obj client.Object) bool {
+	return s.RejectObject != nil && s.RejectObject(obj)
+}
+
 func (s *Store) Create(_ context.Context, obj client.Object, opts ...client.CreateOption) error {
 	co := &client.CreateOptions{}
 	for _, o := range opts {
@@ -485,7 +492,7 @@ func (s *Store) Create(_ context.Context, obj client.Object, opts ...client.Crea
 		s.log(c)
 		return kerrors.NewAlreadyExists(gr(group, kind), name)
 	}
-	if s.rejected(group, kind, c.NS, name) {
+	if s.rejected(group, kind, c.NS, name) || s.rejectedObj(obj) {
 		c.Err = true
 		s.log(c)
 		return kerrors.NewInvalid(schema.GroupKind{Group: group, Kind: kind}, name, nil)
@@ -793,7 +800,7 @@ func (s *Store) Patch(_ context.Context, obj client.Object, p client.Patch, opts
 			s.log(c)
 			return kerrors.NewBadRequest("metadata.name is required to apply")
 		}
-		if s.rejected(group, kind, c.NS, c.Name) {
+		if s.rejected(group, kind, c.NS, c.Name) || s.rejectedObj(obj) {
 			c.Err = true
 			s.log(c)
 			return kerrors.NewInvalid(schema.GroupKind{Group: group, Kind: kind}, c.Name, nil)
